@@ -156,3 +156,58 @@ def gen_noise(rng, n=None) -> bytes:
         pos = rng.randrange(len(ro))
         ro[pos] = rng.choice(NOISE_ALPHA)
     return bytes(ro)
+
+
+# ------------------------------------------------------------------ descriptors for the Lean spec encoder
+DATA_ALPHA = bytes(c for c in range(32, 127) if c not in (33, 47))
+WORD = b"ABCXYZabcxyz0189_"
+
+
+def gen_desc(rng, big=False, chk=None):
+    man = bytes([rng.choice(b"ABKLXZ"), rng.choice(b"ADFMSZ"), rng.choice(b"CMNkz")])
+    baud = rng.choice(b"0123456789")
+    escs = bytes(rng.choice(WORD) for _ in range(rng.choice([0, 0, 0, 1, 2, 3])))
+    n = rng.choice([0, 1, 3, 8, 15, 16])
+    ident = bytearray(rng.choice(DATA_ALPHA) for _ in range(n))
+    if len(ident) >= 2 and ident[0] == 92 and (chr(ident[1]).isalnum() or ident[1] == 95):
+        ident[0] = 88
+    while ident and ident[-1] == 32:
+        ident.pop()
+    nl = rng.choice([0, 1, 2, 5, 12, 25])
+    lines = []
+    if rng.random() < 0.7:
+        lines.append(b"")
+    for ln in gen_data_lines(rng, nl):
+        lines.append(ln[:-2])
+    if rng.random() < 0.2:
+        lines.append(bytes(rng.choice(DATA_ALPHA) for _ in range(rng.choice([1, 10, 70]))))
+    if big:
+        target = rng.choice([2000, 5000, 7900])
+        while sum(len(l) + 2 for l in lines) < target:
+            lines += [l[:-2] for l in gen_data_lines(rng, 20)]
+        while sum(len(l) + 2 for l in lines) + 40 > 8100:
+            lines.pop()
+    c = chk if chk is not None else rng.choice(["U", "U", "L", "N"])
+    return (man, baud, escs, bytes(ident), lines, c)
+
+
+def desc_arg(d) -> str:
+    man, baud, escs, ident, lines, c = d
+    ls = "/".join(lib.hexs(l) for l in lines) if lines else "."
+    return f"{man.hex()},{baud},{lib.hexs(escs)},{lib.hexs(ident)},{ls},{c}"
+
+
+def clean_request(pre: bytes, descs, cuts) -> str:
+    ds = ";".join(desc_arg(d) for d in descs) if descs else "."
+    ct = ",".join(map(str, cuts)) if cuts else "."
+    return f"p1.clean {lib.hexs(pre)} {ds} {ct}"
+
+
+def parse_clean_answer(a: str):
+    parts = a.split(" | ")
+    if len(parts) != 5:
+        raise lib.ToolFailure(f"driver: {a[:200]}")
+    wire_hex, model, spec, dom, chunks_s = parts
+    chunks = [bytes.fromhex(c) if c != "-" else b"" for c in chunks_s.split(",")]
+    lst = lambda s: [] if s == "." else s.split(" ")
+    return wire_hex, (model if model.startswith("EXC") else lst(model)), lst(spec), dom == "1", chunks
